@@ -212,14 +212,16 @@ def check(prop, mod, a, seed, t0):
     print(f"{prop}: targets={len(eng.targets)} obligations={len(obs)} proved={nproved} "
           f"unsupported={len(unsupported)} bounded={[(b['name'], b.get('status')) for b in bounded]} "
           f"samecode={sc.get('checked')}/{len(eng.functions_under_contract)} wall={time.time() - t0:.1f}s")
-    if unreached:
-        print("CHECKER-ERROR vacuity guard: unreachable statements in", sorted(unreached))
-        return 3
     if sc.get("mismatch"):
         print("CHECKER-ERROR same-code mismatch:", sc["mismatch"][:3])
         return 3
     if violations or bounded_viol:
+        if unreached:
+            print("NOTE vacuity guard: statements not reached on a feasible path in", sorted(unreached), "(reported with the violation)")
         return 1
+    if unreached:
+        print("CHECKER-ERROR vacuity guard: unreachable statements in", sorted(unreached))
+        return 3
     expected = getattr(mod, "EXPECTED_MIN_OBLIGATIONS", 1)
     if len(obs) < expected:
         print(f"CHECKER-ERROR obligation count {len(obs)} < expected minimum {expected}")
@@ -289,6 +291,8 @@ def make_evidence(prop, mod, a, seed, eng, obs, nproved, sc, bounded, unsupporte
         "paths": eng.stats,
         "explanation": getattr(mod, "EXPLANATION", ""),
     }
+    if getattr(eng, "effect_reports", None):
+        cov["effect_contracts"] = eng.effect_reports
     if level != "proof" or True:
         ev = sum(b.get("evaluations", 0) for b in bounded)
         dn = sum(b.get("distinct_nontrivial", 0) for b in bounded)
